@@ -994,6 +994,11 @@ func mergeFreeGuard(c *Ctx, f *ssa.Function, store ssa.Instruction, fBase *types
 				if !isK || k != 0 {
 					continue
 				}
+				// the test runs for every segment: it sits in a loop that indexes the stack's segment list with a
+				// loop-carried index (a test of one fixed element - the newest, say - does not speak for the stack)
+				if !inLoopOverSegments(c, g, b) {
+					continue
+				}
 				var posSucc *ssa.BasicBlock
 				switch op {
 				case token.GTR, token.NEQ:
@@ -1094,4 +1099,46 @@ func mergeFreeGuard(c *Ctx, f *ssa.Function, store ssa.Instruction, fBase *types
 		return desc
 	}
 	return ""
+}
+
+// inLoopOverSegments: block b of g lies in a loop that reads segmentStack.a[i] with a loop-carried index i.
+func inLoopOverSegments(c *Ctx, g *ssa.Function, b *ssa.BasicBlock) bool {
+	scc := sccOf(g, b)
+	if scc == nil {
+		return false
+	}
+	fA := c.Field("segmentStack", "a")
+	ok := false
+	eachInstr(g, func(i ssa.Instruction) {
+		if !scc[i.Block()] {
+			return
+		}
+		var x, idx ssa.Value
+		switch v := i.(type) {
+		case *ssa.IndexAddr:
+			x, idx = v.X, v.Index
+		case *ssa.Index:
+			x, idx = v.X, v.Index
+		default:
+			return
+		}
+		if fv, _ := loadedField(x); fv != fA {
+			return
+		}
+		// loop-carried: the index is (derived from) a phi of this loop
+		backSlice(idx, func(w ssa.Value) bool {
+			if phi, isPhi := w.(*ssa.Phi); isPhi && scc[phi.Block()] {
+				ok = true
+			}
+			if bo, isB := w.(*ssa.BinOp); isB {
+				for _, opnd := range []ssa.Value{bo.X, bo.Y} {
+					if phi, isPhi := opnd.(*ssa.Phi); isPhi && scc[phi.Block()] {
+						ok = true
+					}
+				}
+			}
+			return false
+		})
+	})
+	return ok
 }
